@@ -314,13 +314,22 @@ class RedshiftBinningFactory:
     ) -> Binning:
         """Creates a binning linear in comoving distance between a min and max
         redshift."""
-        comov_min, comov_cmax = self.cosmology.comoving_distance([min, max])
-        comov_edges = np.linspace(comov_min, comov_cmax, num_bins + 1)
-        if not isinstance(comov_edges, units.Quantity):
-            comov_edges = comov_edges * units.Mpc
 
-        edges = z_at_value(self.cosmology.comoving_distance, comov_edges)
-        return Binning(edges.value, closed=closed)
+        def comoving_distance(z):
+            dist = self.cosmology.comoving_distance(z)
+            if not isinstance(dist, units.Quantity):  # custom cosmologies
+                dist = np.asarray(dist) * units.Mpc
+            return dist
+
+        comov_min, comov_cmax = comoving_distance(np.array([min, max]))
+        comov_edges = np.linspace(comov_min, comov_cmax, num_bins + 1)
+
+        # the outer edges are given, only the inner ones must be computed
+        edges = np.empty(num_bins + 1)
+        edges[0], edges[-1] = min, max
+        if num_bins > 1:
+            edges[1:-1] = z_at_value(comoving_distance, comov_edges[1:-1]).value
+        return Binning(edges, closed=closed)
 
     def logspace(
         self,
@@ -333,6 +342,7 @@ class RedshiftBinningFactory:
         """Creates a binning linear in 1+ln(z) between a min and max redshift."""
         log_min, log_max = np.log([1.0 + min, 1.0 + max])
         edges = np.logspace(log_min, log_max, num_bins + 1, base=np.e) - 1.0
+        edges[0], edges[-1] = min, max  # exact despite rounding errors
         return Binning(edges, closed=closed)
 
     def get_method(
